@@ -12,6 +12,7 @@ import (
 	"net/rpc"
 	"sync"
 
+	"github.com/hashicorp/go-plugin/internal/verifhook"
 	"github.com/hashicorp/yamux"
 )
 
@@ -84,6 +85,7 @@ func (s *RPCServer) ServeConn(conn io.ReadWriteCloser) {
 
 		return
 	}
+	verifhook.Point("rpc.serveconn.control", s, 0, 0)
 
 	// Connect the stdstreams (in, out, err)
 	stdstream := make([]net.Conn, 2)
@@ -148,6 +150,7 @@ func (c *controlServer) Quit(
 	null bool, response *struct{},
 ) error {
 	// End the server
+	verifhook.Point("rpc.quit", c.server, 0, 0)
 	c.server.done()
 
 	// Always return true
@@ -181,6 +184,7 @@ func (d *dispenseServer) Dispense(
 	// Reserve an ID for our implementation
 	id := d.broker.NextId()
 	*response = id
+	verifhook.Point("rpc.dispense.id", d.broker, int64(id), 0)
 
 	// Run the rest in a goroutine since it can only happen once this RPC
 	// call returns. We wait for a connection for the plugin implementation
